@@ -53,6 +53,25 @@ func labellingsFor(w *W, s *Shape, internal int, chunk int, f func(labels []int)
 		}
 		return
 	}
+	if w.Prop.ID == "C04" || w.Prop.ID == "C05" {
+		// TryEval drivers run 16 variants x 3^variables assignments (x completions) per labelling:
+		// for 3 internal nodes they take the all-variable, the all-comparison and two PRNG-chosen labellings
+		if chunk != 0 {
+			return
+		}
+		for _, l := range []int{lbVar, lbCmpVar} {
+			lab := make([]int, slots)
+			for i := range lab {
+				lab[i] = l
+			}
+			f(lab)
+		}
+		r := w.Rand(w.Case)
+		for k := 0; k < 2; k++ {
+			f(decodeLabels(r.Intn(total), slots, numLabels))
+		}
+		return
+	}
 	// 3 internal nodes: every labelling over {var, cmpVar} plus a PRNG sample of the rest
 	t2 := ipow(2, slots)
 	for l := chunk; l < t2; l += enumChunks {
